@@ -94,6 +94,7 @@ var (
 )
 
 func CreateStorage(ctx context.Context, root *treechangeproto.RawTreeChangeWithId, headStorage headstorage.HeadStorage, store anystore.DB) (Storage, error) {
+	verifBeforeCreateTx(root.Id)
 	tx, err := store.WriteTx(ctx)
 	if err != nil {
 		return nil, err
